@@ -1623,6 +1623,23 @@ pub fn gen_c09_blocks(rng: &mut Rng, thorough: bool) -> Vec<Tagged> {
             out.push(("dropout-special-relation-learn".into(), Case::Net(spec, NetCmd::Learn { data: data.clone(), val: Some((data, 100)), batch: 1, epochs: 2 })));
         }
     }
+    // dropout configured on a SOFT-MAX dense layer itself (output layer and hidden layer), rates 0.3 .. 0.9
+    for r in 0..(if thorough { 12 } else { 6 }) {
+        let mut spec = NetSpec::new(Sh::Flat(3).to_shape());
+        let rate = Some([0.5f32, 0.3, 0.9][r % 3]);
+        let hidden_softmax = r % 2 == 1;
+        let d1 = Simple::Dense { out: 4, act: if hidden_softmax { Act::Softmax } else { Act::Tanh }, bias: true, dropout: if hidden_softmax { rate } else { None } };
+        let d2 = Simple::Dense { out: 3, act: Act::Softmax, bias: true, dropout: if hidden_softmax { None } else { rate } };
+        spec.weights = Some(vec![LW::One(rand_w(rng, &d1, Sh::Flat(3), 2)), LW::One(rand_w(rng, &d2, Sh::Flat(4), 2))]);
+        spec.layers.push(LayerSpec::One(d1));
+        spec.layers.push(LayerSpec::One(d2));
+        spec.opt = Opt::SGD { lr: 0.05, decay: None };
+        spec.obj = Obj::CE;
+        let data: Vec<(Tensor, Tensor)> = (0..3).map(|i| { let mut t = vec![0.0f32; 3]; t[(i + r) % 3] = 1.0; (rand_input(rng, Sh::Flat(3), 2), t1(t)) }).collect();
+        out.push(("dropout-on-softmax-layer-predict".into(), Case::Net(spec.clone(), NetCmd::Predict(data[0].0.clone()))));
+        out.push(("dropout-on-softmax-layer-validate".into(), Case::Net(spec.clone(), NetCmd::Validate { data: data.clone(), tol: 0.1, pre_training: r % 4 < 2 })));
+        out.push(("dropout-on-softmax-layer-learn".into(), Case::Net(spec, NetCmd::Learn { data: data.clone(), val: Some((data, 100)), batch: 2, epochs: 2 })));
+    }
     // blocks in which a layer WITHOUT a training flag (max-pool) stands first, last or in the middle, with the
     // dropout layer elsewhere in the block: the mode of the block is the mode of ALL its flagged layers
     for r in 0..(if thorough { 24 } else { 8 }) {
